@@ -72,6 +72,10 @@ def run(ctx):
         if T.norm_result(c.impl) != T.norm_result(ref):
             ctx.fail(c.as_case(), "traced path differs from the reference AOD semantics: impl=%s ref=%s"
                      % (c.impl[:400], ref[:400]))
+        elif getattr(c, "kw_impl", None) is not None and T.norm_result(c.kw_impl) != T.norm_result(ref):
+            ctx.count("keyword_call_differs")
+            ctx.fail(c.as_case(), "traced with every argument given by keyword, the path differs from the reference AOD semantics: "
+                                  "impl=%s ref=%s" % (c.kw_impl[:400], ref[:400]))
         elif c.shared_impl is not None and T.norm_result(c.shared_impl) != T.norm_result(ref):
             ctx.count("shared_instance_differs")
             ctx.fail(c.as_case(), "traced on an instance that has traced other kernels before (failing ones included), the path "
